@@ -1,6 +1,7 @@
 import ParryModel.Proto
 import ParryModel.C01.Model
 import ParryModel.C01.Oracle
+import ParryModel.C01.DriverGjk
 /-! C01 protocol handlers: model evaluation at `Float` (closed forms, SAT) and exact-`Rat` certificate oracles on the
 implementation's output (closed forms **and** the end-to-end `query::distance` / `query::closest_points`). -/
 namespace C01
@@ -63,8 +64,7 @@ def Raw.toRes (r : Raw) (f1 f2 : Q3 → Q3) : Option Res :=
   | .bad => none
 
 /-! ### shapes on the wire -/
-def pshape3 : P Sh := do
-  let k ← tok
+def pshapeCore3 (k : String) : P Sh := do
   match k with
   | "ball" => do let r ← pf; pure (.ball (q r))
   | "cuboid" => do let h ← pv3; pure (.cuboid (q3 h))
@@ -77,8 +77,13 @@ def pshape3 : P Sh := do
   | "halfspace" => do let n ← pv3; pure (.halfspace (q3 n))
   | _ => failure
 
-def pshape2 : P Sh := do
+/-- `round <inner shape> <border radius>` or a plain shape -/
+def pshape3 : P Sh := do
   let k ← tok
+  if k = "round" then do let k2 ← tok; let i ← pshapeCore3 k2; let r ← pf; pure (.round i (q r))
+  else pshapeCore3 k
+
+def pshapeCore2 (k : String) : P Sh := do
   match k with
   | "ball" => do let r ← pf; pure (.ball (q r))
   | "cuboid" => do let h ← pv2; pure (.cuboid (emb (q2 h)))
@@ -88,6 +93,11 @@ def pshape2 : P Sh := do
   | "convex" => do let ps ← plist pv2; pure (.polygon (ps.map fun p => emb (q2 p)))
   | "halfspace" => do let n ← pv2; pure (.halfspace (emb (q2 n)))
   | _ => failure
+
+def pshape2 : P Sh := do
+  let k ← tok
+  if k = "round" then do let k2 ← tok; let i ← pshapeCore2 k2; let r ← pf; pure (.round i (q r))
+  else pshapeCore2 k
 
 /-- tail of an end-to-end output: `H <raw> C <n> pts…` (hint result for `max_dist = MAX`, candidate overlap points) -/
 def ptail (dim3 : Bool) : P (Raw × List Q3) := do
@@ -112,6 +122,13 @@ def hintsOf (h : Raw) (f1 f2 : Q3 → Q3) : List Res := match h.toRes f1 f2 with
   | some r => [r]
   | none => []
 
+/-- round shapes always go through GJK and are curved: accuracy comparisons use the curved-support-map tolerance (×10) -/
+def roundScale (A B : Placed) : Rat :=
+  match A.sh, B.sh with
+  | .round .., _ => 10
+  | _, .round .. => 10
+  | _, _ => 1
+
 /-- world form (`query::closest_points(pos1, g1, pos2, g2, max_dist)`): witnesses are already in world space -/
 def oracleCPWorld (dim3 : Bool) (a o : List String) : String :=
   let parsed := if dim3 then
@@ -128,7 +145,7 @@ def oracleCPWorld (dim3 : Bool) (a o : List String) : String :=
     | some (r, (h, pts)) =>
       match r.toRes id id with
       | none => s!"fail route={A.sh.kind}x{B.sh.kind} non-finite-witness"
-      | some res => judgeCP A B m res (hintsOf h id id) pts (!dim3)
+      | some res => judgeCP A B m res (hintsOf h id id) pts (!dim3) (roundScale A B)
 
 /-- dispatcher form (`DefaultQueryDispatcher.closest_points(pos12, g1, g2, max_dist)`): witnesses in local frames -/
 def oracleCPLocal (dim3 : Bool) (a o : List String) : String :=
@@ -146,7 +163,7 @@ def oracleCPLocal (dim3 : Bool) (a o : List String) : String :=
     | some (r, (h, pts)) =>
       match r.toRes id B.pose.act with
       | none => s!"fail route={A.sh.kind}x{B.sh.kind} non-finite-witness"
-      | some res => judgeCP A B m res (hintsOf h id B.pose.act) (pts.map id) (!dim3)
+      | some res => judgeCP A B m res (hintsOf h id B.pose.act) (pts.map id) (!dim3) (roundScale A B)
 
 def oracleDistWorld (dim3 : Bool) (a o : List String) : String :=
   let parsed := if dim3 then
@@ -166,7 +183,240 @@ def oracleDistWorld (dim3 : Bool) (a o : List String) : String :=
     | none => "fail unparsable-output"
     | some (x, (h, pts)) =>
       if !okF x then s!"fail route={A.sh.kind}x{B.sh.kind} non-finite-distance" else
-      judgeDist A B (q x) (hintsOf h id id) pts (!dim3)
+      judgeDist A B (q x) (hintsOf h id id) pts (!dim3) (roundScale A B)
+
+/-! ### histories: ONE `VoronoiSimplex` reused by a sequence of `*_support_map_support_map_with_params` queries -/
+
+/-- one step of a history: `d` = `distance_…_with_params`, `c <max_dist>` = `closest_points_…_with_params`;
+shape 1 in its local frame, shape 2 placed by `pos12`; both witnesses are reported in the frame of shape 1 -/
+structure HStep where
+  isDist : Bool
+  maxDist : Rat
+  A : Placed
+  B : Placed
+
+def phstep (dim3 : Bool) : P HStep := do
+  let op ← tok
+  let (isD, m) ← (if op = "d" then pure (true, (0 : Rat)) else if op = "c" then do let m ← pf; pure (false, q m) else failure)
+  if dim3 then do
+    let s1 ← pshape3; let s2 ← pshape3; let p ← piso3
+    pure ⟨isD, m, ⟨s1, Aff.identity⟩, ⟨s2, Aff.ofIso3 (qiso3 p)⟩⟩
+  else do
+    let s1 ← pshape2; let s2 ← pshape2; let p ← piso2
+    pure ⟨isD, m, ⟨s1, Aff.identity⟩, ⟨s2, Aff.ofIso2 (qiso2 p)⟩⟩
+
+def judgeHStep (dim3 : Bool) (st : HStep) : P String := do
+  if st.isDist then do
+    let t ← tok
+    let tl ← ptail dim3
+    match FloatIO.ofHex? t with
+    | none => pure (if t = "U" then "skip unsupported-pair" else s!"fail route={st.A.sh.kind}x{st.B.sh.kind} non-finite-distance")
+    | some x =>
+      if !okF x then pure s!"fail route={st.A.sh.kind}x{st.B.sh.kind} non-finite-distance" else
+      pure (judgeDist st.A st.B (q x) (hintsOf tl.1 id st.B.pose.act) tl.2 (!dim3) (gjkTolScale st.A st.B))
+  else do
+    let r ← praw dim3
+    let tl ← ptail dim3
+    match r.toRes id id with
+    | none => pure s!"fail route={st.A.sh.kind}x{st.B.sh.kind} non-finite-witness"
+    | some res => pure (judgeCP st.A st.B st.maxDist res (hintsOf tl.1 id st.B.pose.act) tl.2 (!dim3) (gjkTolScale st.A st.B))
+
+/-- every step of the history is judged like a fresh query (history independence): first failure wins -/
+def oracleHistory (dim3 : Bool) (a o : List String) : String :=
+  match run (plist (phstep dim3)) a with
+  | none => "skip bad-args"
+  | some steps =>
+    let rec go (i : Nat) (sts : List HStep) (o : List String) (passed : Nat) : String :=
+      match sts with
+      | [] => if passed > 0 then s!"pass steps={passed}" else "skip no-step-judged"
+      | st :: rest =>
+        match (judgeHStep dim3 st) o with
+        | none => "fail unparsable-output"
+        | some (v, o') =>
+          if v.startsWith "fail" then s!"{v} step={i}"
+          else go (i + 1) rest o' (if v.startsWith "pass" then passed + 1 else passed)
+    go 0 steps o 0
+
+
+/-! ### bit-exact model of the `*_with_params` histories (`gjkm3`): modelled support maps only -/
+
+/-- shapes whose support map is in the C10 model -/
+inductive MSh3 where
+  | cuboid (he : V3 Float) | segment (a b : V3 Float) | triangle (a b c : V3 Float) | capsule (a b : V3 Float) (r : Float)
+  | cone (hh r : Float) | cylinder (hh r : Float) | ball (r : Float) | round (i : MSh3) (br : Float)
+
+/-- `local_support_point` -/
+def MSh3.loc : MSh3 → V3 Float → V3 Float
+  | .cuboid he, d => Model.C10.cuboidLocal3 he d
+  | .segment a b, d => Model.C10.segmentLocal3 a b d
+  | .triangle a b c, d => Model.C10.triangleLocal3 a b c d
+  | .capsule a b r, d => Model.C10.capsuleLocal3 a b r d
+  | .cone hh r, d => Model.C10.coneLocal hh r d
+  | .cylinder hh r, d => Model.C10.cylinderLocal hh r d
+  | .ball r, d => Model.C10.ballLocal3 r d
+  | .round i br, d => Model.C10.roundLocal3 i.loc br d   -- the rounded kinds do not override `local_support_point_toward`
+
+/-- `support_point(pos12, ·)` (`Ball` overrides it) -/
+def MSh3.posed (g : MSh3) (m : Iso3 Float) (d : V3 Float) : V3 Float :=
+  match g with
+  | .ball r => Model.C10.ballPosed3 r m d
+  | _ => Model.C10.supportPoint3 g.loc m d
+
+def pmshCore3 (k : String) : P MSh3 := do
+  match k with
+  | "cuboid" => do let h ← pv3; pure (.cuboid h)
+  | "segment" => do let a ← pv3; let b ← pv3; pure (.segment a b)
+  | "triangle" => do let a ← pv3; let b ← pv3; let c ← pv3; pure (.triangle a b c)
+  | "capsule" => do let a ← pv3; let b ← pv3; let r ← pf; pure (.capsule a b r)
+  | "cone" => do let h ← pf; let r ← pf; pure (.cone h r)
+  | "cylinder" => do let h ← pf; let r ← pf; pure (.cylinder h r)
+  | "ball" => do let r ← pf; pure (.ball r)
+  | _ => failure
+def pmsh3 : P MSh3 := do
+  let k ← tok
+  if k = "round" then do let k2 ← tok; let i ← pmshCore3 k2; let r ← pf; pure (.round i r) else pmshCore3 k
+
+structure MStep3 where
+  isDist : Bool
+  maxDist : Float
+  g1 : MSh3
+  g2 : MSh3
+  pos : Iso3 Float
+
+def pmstep3 : P MStep3 := do
+  let op ← tok
+  let (isD, m) ← (if op = "d" then pure (true, (0 : Float)) else if op = "c" then do let m ← pf; pure (false, m) else failure)
+  let g1 ← pmsh3; let g2 ← pmsh3; let p ← piso3
+  pure ⟨isD, m, g1, g2, p⟩
+
+def runMSteps3 : List MStep3 → Model.Gjk.Vs3 Float → List String → List String
+  | [], _, acc => acc.reverse
+  | st :: rest, s, acc =>
+    let fs := Model.Gjk.fromShapes3 st.g1.loc (st.g2.posed st.pos)
+    if st.isDist then
+      match Model.Gjk.distanceSmSmWithParams3 fs st.pos.t s none with
+      | (none, _) => ("panic" :: acc).reverse
+      | (some x, s) => runMSteps3 rest s (s!"{ff x} {C01.Gjk.dump3 s}" :: acc)
+    else
+      -- `f64::MAX` as `max_dist` behaves like "no bound"
+      let md : Option Float := if st.maxDist ≥ 1.0e308 then none else some st.maxDist
+      let r := Model.Gjk.gjkClosestPoints3 fs md true (Model.Gjk.gjkStart3 fs st.pos.t none s)
+      match r.1 with
+      | .panic => ("panic" :: acc).reverse
+      | .intersection => runMSteps3 rest r.2 (s!"I {C01.Gjk.dump3 r.2}" :: acc)
+      | .closest p1 p2 d => runMSteps3 rest r.2 (s!"W {fv3 p1} {fv3 p2} {fv3 d} {C01.Gjk.dump3 r.2}" :: acc)
+      | .noIntersection d => runMSteps3 rest r.2 (s!"D {fv3 d} {C01.Gjk.dump3 r.2}" :: acc)
+      | .proximity d => runMSteps3 rest r.2 (s!"U {fv3 d} {C01.Gjk.dump3 r.2}" :: acc)
+
+/-! ### bit-exact model of the `*_with_params` histories (`gjkm2`): modelled support maps only -/
+
+/-- shapes whose support map is in the C10 model -/
+inductive MSh2 where
+  | cuboid (he : V2 Float) | segment (a b : V2 Float) | triangle (a b c : V2 Float) | capsule (a b : V2 Float) (r : Float)
+  | cone (hh r : Float) | cylinder (hh r : Float) | ball (r : Float) | round (i : MSh2) (br : Float)
+
+/-- `local_support_point` -/
+def MSh2.loc : MSh2 → V2 Float → V2 Float
+  | .cuboid he, d => Model.C10.cuboidLocal2 he d
+  | .segment a b, d => Model.C10.segmentLocal2 a b d
+  | .triangle a b c, d => Model.C10.triangleLocal2 a b c d
+  | .capsule a b r, d => Model.C10.capsuleLocal2 a b r d
+  | .cone hh r, d => d
+  | .cylinder hh r, d => d
+  | .ball r, d => Model.C10.ballLocal2 r d
+  | .round i br, d => Model.C10.roundLocal2 i.loc br d   -- the rounded kinds do not override `local_support_point_toward`
+
+/-- `support_point(pos12, ·)` (`Ball` overrides it) -/
+def MSh2.posed (g : MSh2) (m : Iso2 Float) (d : V2 Float) : V2 Float :=
+  match g with
+  | .ball r => Model.C10.ballPosed2 r m d
+  | _ => Model.C10.supportPoint2 g.loc m d
+
+def pmshCore2 (k : String) : P MSh2 := do
+  match k with
+  | "cuboid" => do let h ← pv2; pure (.cuboid h)
+  | "segment" => do let a ← pv2; let b ← pv2; pure (.segment a b)
+  | "triangle" => do let a ← pv2; let b ← pv2; let c ← pv2; pure (.triangle a b c)
+  | "capsule" => do let a ← pv2; let b ← pv2; let r ← pf; pure (.capsule a b r)
+  | "cone" => do let h ← pf; let r ← pf; pure (.cone h r)
+  | "cylinder" => do let h ← pf; let r ← pf; pure (.cylinder h r)
+  | "ball" => do let r ← pf; pure (.ball r)
+  | _ => failure
+def pmsh2 : P MSh2 := do
+  let k ← tok
+  if k = "round" then do let k2 ← tok; let i ← pmshCore2 k2; let r ← pf; pure (.round i r) else pmshCore2 k
+
+structure MStep2 where
+  isDist : Bool
+  maxDist : Float
+  g1 : MSh2
+  g2 : MSh2
+  pos : Iso2 Float
+
+def pmstep2 : P MStep2 := do
+  let op ← tok
+  let (isD, m) ← (if op = "d" then pure (true, (0 : Float)) else if op = "c" then do let m ← pf; pure (false, m) else failure)
+  let g1 ← pmsh2; let g2 ← pmsh2; let p ← piso2
+  pure ⟨isD, m, g1, g2, p⟩
+
+def runMSteps2 : List MStep2 → Model.Gjk.Vs2 Float → List String → List String
+  | [], _, acc => acc.reverse
+  | st :: rest, s, acc =>
+    let fs := Model.Gjk.fromShapes2 st.g1.loc (st.g2.posed st.pos)
+    if st.isDist then
+      match Model.Gjk.distanceSmSmWithParams2 fs st.pos.t s none with
+      | (none, _) => ("panic" :: acc).reverse
+      | (some x, s) => runMSteps2 rest s (s!"{ff x} {C01.Gjk.dump2 s}" :: acc)
+    else
+      -- `f64::MAX` as `max_dist` behaves like "no bound"
+      let md : Option Float := if st.maxDist ≥ 1.0e308 then none else some st.maxDist
+      let r := Model.Gjk.gjkClosestPoints2 fs md true (Model.Gjk.gjkStart2 fs st.pos.t none s)
+      match r.1 with
+      | .panic => ("panic" :: acc).reverse
+      | .intersection => runMSteps2 rest r.2 (s!"I {C01.Gjk.dump2 r.2}" :: acc)
+      | .closest p1 p2 d => runMSteps2 rest r.2 (s!"W {fv2 p1} {fv2 p2} {fv2 d} {C01.Gjk.dump2 r.2}" :: acc)
+      | .noIntersection d => runMSteps2 rest r.2 (s!"D {fv2 d} {C01.Gjk.dump2 r.2}" :: acc)
+      | .proximity d => runMSteps2 rest r.2 (s!"U {fv2 d} {C01.Gjk.dump2 r.2}" :: acc)
+
+/-- oracle for `gjkm*`: every step judged like a fresh query (no hints: exact distances for polytope/round-polytope cores) -/
+def judgeMStep (dim3 : Bool) (st : HStep) : P String := do
+  let vec : P (Option Q3) := if dim3 then do let v ← pvo3; pure (if ok3 v then some (q3 v) else none)
+                             else do let v ← pvo2; pure (if ok2 v then some (emb (q2 v)) else none)
+  let route := s!"route={st.A.sh.kind}x{st.B.sh.kind}"
+  if st.isDist then do
+    let x ← pfo; let _ ← C01.Gjk.pobs dim3
+    if !okF x then pure s!"fail {route} non-finite-distance" else pure (judgeDist st.A st.B (q x) [] [] (!dim3) (gjkTolScale st.A st.B))
+  else do
+    let t ← tok
+    let res : Option Res ← (match t with
+      | "I" => pure (some Res.intersecting)
+      | "D" => do let _ ← vec; pure (some Res.disjoint)
+      | "U" => do let _ ← vec; pure (some Res.unsupported)
+      | "W" => do let a ← vec; let b ← vec; let _ ← vec
+                  pure (match a, b with | some a, some b => some (Res.within a b) | _, _ => none)
+      | _ => failure)
+    let _ ← C01.Gjk.pobs dim3
+    match res with
+    | none => pure s!"fail {route} non-finite-witness"
+    | some r => pure (judgeCP st.A st.B st.maxDist r [] [] (!dim3) (gjkTolScale st.A st.B))
+
+def oracleMHistory (dim3 : Bool) (a o : List String) : String :=
+  match run (plist (phstep dim3)) a with
+  | none => "skip bad-args"
+  | some steps =>
+    let rec go (i : Nat) (sts : List HStep) (o : List String) (passed : Nat) : String :=
+      match sts with
+      | [] => if passed > 0 then s!"pass steps={passed}" else "skip no-step-judged"
+      | st :: rest =>
+        match o with
+        | "panic" :: _ => s!"fail route={st.A.sh.kind}x{st.B.sh.kind} panic step={i}"
+        | _ =>
+        match (judgeMStep dim3 st) o with
+        | none => "fail unparsable-output"
+        | some (v, o') =>
+          if v.startsWith "fail" then s!"{v} step={i}"
+          else go (i + 1) rest o' (if v.startsWith "pass" then passed + 1 else passed)
+    go 0 steps o 0
 
 /-! ### closed-form oracles -/
 
@@ -346,6 +596,12 @@ def handler (fn : String) : Option Handler :=
   | "cpl2" => some { model := fun _ => some "oracle-only", oracle := oracleCPLocal false }
   | "dist3" => some { model := fun _ => some "oracle-only", oracle := oracleDistWorld true }
   | "dist2" => some { model := fun _ => some "oracle-only", oracle := oracleDistWorld false }
-  | _ => none
+  | "gjkm3" => some { model := fun a => (run (plist pmstep3) a).map fun sts => " ".intercalate (runMSteps3 sts Model.Gjk.Vs3.new [])
+                      oracle := oracleMHistory true }
+  | "gjkm2" => some { model := fun a => (run (plist pmstep2) a).map fun sts => " ".intercalate (runMSteps2 sts Model.Gjk.Vs2.new [])
+                      oracle := oracleMHistory false }
+  | "gjkh3" => some { model := fun _ => some "oracle-only", oracle := oracleHistory true }
+  | "gjkh2" => some { model := fun _ => some "oracle-only", oracle := oracleHistory false }
+  | _ => C01.Gjk.handler fn
 
 end C01
